@@ -1,4 +1,6 @@
 import OVM.IO.Ovmb.FramingLemmas
+import OVM.IO.Ovmb.RoundTripExample
+import OVM.IO.Ovmb.RoundTripPermitted
 /-
   C06, OVMB half — the format relation and the parts of the round trip that are theorems so far.
 
@@ -10,18 +12,43 @@ import OVM.IO.Ovmb.FramingLemmas
   (little-endian integers of every width, integer arrays, bit-packed bools, every registered value codec for
   any number of values), the writer's integer-width selection always fits the handles it is used for, the
   writer refuses a mesh with pending deletions without writing a byte.
-  NOT yet a theorem: `decode cfg (encodeWith L F) = .ok F` for every valid layout `L` (and hence for the
-  writer's own layout) — `roundtrip_statement` below is the full statement; until it is proved that step is
-  evaluated by the judge on every generated mesh and layout (tools/props/io_ovmb.py).
+  **Writer round trip (end to end)**: `writer_roundtrip` — for every well-formed `F` and every reading
+  configuration that accepts its faces and cells as written (`Accepts`; every polyhedral read without topology
+  check does, `writer_roundtrip_poly`), `decode cfg (encode F) = .ok F`: same counts, positions bit for bit,
+  edge / face / cell definitions handle for handle, properties with kind, name, type, default and values, in
+  directory order.  Hypotheses besides `WFFile`: the file is shorter than 2^64 bytes (`SizeOk`, the width of the
+  chunk length field) and `ModeFits` — fixed valence × count < 2^32 — which holds up to 16 843 009 faces / cells
+  and is *necessary* (`writer_roundtrip_limit`: beyond it the reader rejects the writer's own file; finding
+  O2-topo-valence-product-overflow).  Lemmas: OVM/IO/Ovmb/RoundTrip{Frame,Chunks,Trunc,States,Writer,Limits}.lean.
+  **Every permitted encoding (end to end)**: `permitted_roundtrip` — for every well-formed `F`, every byte string
+  `bytes` with `Encodes bytes F` (any valid `Layout`: spans, widths, offsets, fixed / variable valence, exact float
+  vertices, skippable chunks, paddings ≤ 255, file version, chunk order) and every polyhedral read without
+  topology check, `decode cfg bytes = .ok F`.  This is the former placeholder `RoundtripStatement` with two size
+  hypotheses added: `bytes.length < 2^64`, and at most 16 843 009 faces and cells — `ValidLayout` does not bound
+  `valence * count` of a fixed-valence chunk, which the reader multiplies in 32 bits, so the statement without
+  the bound is false of the model (and of the code) for larger meshes, see `writer_roundtrip_limit`.
+  Lemmas: OVM/IO/Ovmb/RoundTrip{LayoutBase,Layout,Permitted}.lean (`stOf`, `CurOk`, `lstep_*`, `layout_run`).
+  NOT a theorem here (evaluated by the judge on every generated mesh, tools/props/io_ovmb.py):
+  `encodeWith (writerLayout F) F = encode F` and `ValidLayout (writerLayout F) F` (the writer's bytes are one of
+  the permitted encodings) — the writer's own round trip is proved directly instead; and permitted encodings
+  read into tetrahedral / hexahedral targets or with topology check (`Accepts` is stated for whole files, a
+  layout may interleave faces and cells).
 -/
 namespace OVM.Props.C06
 open OVM.Ovmb OVM.Gen.Ovmb Dec
 
-/-- the full round-trip statement for every permitted encoding (kept visible; proved instances are evaluated by
-    the judge for every generated mesh and layout) -/
+/-- the round-trip statement for every permitted encoding, with the two size bounds under which it holds -/
 def RoundtripStatement : Prop :=
   ∀ (cfg : Cfg) (F : File) (bytes : Bytes), WFFile F = true → Encodes bytes F →
-    (cfg.kind = .poly ∧ cfg.topoCheck = false) → decode cfg bytes = .ok F
+    (cfg.kind = .poly ∧ cfg.topoCheck = false) →
+    bytes.length < 2 ^ 64 → F.faces.length ≤ 16843009 → F.cells.length ≤ 16843009 →
+    decode cfg bytes = .ok F
+
+/-- **every permitted encoding reads to the same mesh** -/
+theorem permitted_roundtrip : RoundtripStatement := by
+  intro cfg F bytes hwf ⟨L, hval, hb⟩ ⟨hk, ht⟩ hsize hnf hnc
+  subst hb
+  exact decode_encodeWith cfg F hk ht L hwf hval hsize hnf hnc
 
 /-- little-endian integers of any width round-trip -/
 theorem int_roundtrip (k v : Nat) (h : v < 256 ^ k) (rest : Bytes) : uN k (leN k v ++ rest) = .ok (v, rest) :=
@@ -77,6 +104,62 @@ theorem write_is_encode (F : File) (out : Bytes) :
   simp only [write, Bool.not_true, Bool.false_eq_true, if_false]
   rw [this.1]
   exact ⟨by simp, by rw [this.2]; simp [encode]⟩
+
+/-- **writer round trip**: what the OVMB writer produces for a well-formed mesh reads back as that mesh, for
+    every reading configuration that accepts its faces and cells as written -/
+theorem writer_roundtrip (cfg : Cfg) (F : File) (hwf : WFFile F = true) (hacc : Accepts cfg F) (hs : SizeOk F)
+    (hf : ModeFits F.faces) (hc : ModeFits F.cells) : decode cfg (encode F) = .ok F :=
+  decode_encode cfg F hwf hacc hs hf hc
+
+/-- polyhedral target without topology check: every well-formed file is accepted; up to 16 843 009 faces and
+    cells no valence-product condition is needed -/
+theorem writer_roundtrip_poly (cfg : Cfg) (F : File) (hk : cfg.kind = .poly) (ht : cfg.topoCheck = false)
+    (hwf : WFFile F = true) (hs : SizeOk F) (hf : F.faces.length ≤ 16843009) (hc : F.cells.length ≤ 16843009) :
+    decode cfg (encode F) = .ok F :=
+  decode_encode cfg F hwf (accepts_poly cfg F hk ht) hs (modeFits_of_count _ hf) (modeFits_of_count _ hc)
+
+/-- the valence-product condition is necessary: when the writer's fixed face valence times the number of faces
+    reaches 2^32 the reader rejects the writer's own file (`uint8_t * uint32_t` in `read_topo_chunk`) -/
+theorem writer_roundtrip_limit (cfg : Cfg) (F : File) (hwf : WFFile F = true) (hacc : Accepts cfg F) (hs : SizeOk F)
+    (hf : ¬ModeFits F.faces) : decode cfg (encode F) = .error (.res .invalidFile) :=
+  decode_encode_overflow cfg F hwf hacc hs hf
+
+/-- the chunk loop over a complete file of well-framed chunks is the payload readers applied in order (each sees
+    exactly its chunk's payload), followed by the final checks -/
+theorem chunk_loop_is_sequence (cfg : Cfg) (cs : List ChunkD) (hfit : ∀ c ∈ cs, c.Fits) (s : RState) :
+    loop cfg s ⟨(cs.map ChunkD.bytes).flatten.length, (cs.map ChunkD.bytes).flatten⟩ =
+      match runChunks cfg s cs with
+      | .error e => .error e
+      | .ok s' => finish s' := loop_chunks cfg cs hfit s
+
+/-! non-vacuity (evaluation on one input, a test): the one-tetrahedron file with an `i32` vertex property is well
+    formed, 440 bytes long, and satisfies every hypothesis of `writer_roundtrip` for a polyhedral read without
+    topology check and for a tetrahedral read with topology check -/
+example : decode Example.polyCfg (encode Example.tetFile) = .ok Example.tetFile :=
+  writer_roundtrip_poly _ _ rfl rfl Example.tetFile_wf Example.tetFile_size (by decide) (by decide)
+example : decode Example.tetCfg (encode Example.tetFile) = .ok Example.tetFile :=
+  writer_roundtrip _ _ Example.tetFile_wf Example.tetFile_accepts Example.tetFile_size Example.tetFile_faces
+    Example.tetFile_cells
+
+/-! non-vacuity of `permitted_roundtrip` (evaluation on one input, a test): an alternative layout of the
+    one-tetrahedron file — vertices in two spans (the second float-encoded), edges with 16-bit handles and
+    handle offset 0 in two spans, faces with variable valence, a skippable unknown chunk, the directory after the
+    topology, explicit padding — is valid, differs from the writer's bytes, and so reads to the same mesh -/
+def altLayout : Layout :=
+  { fileVersion := 7,
+    pieces := [ { spec := .vert 1 vertexEncodingDouble }, { spec := .vert 3 vertexEncodingFloat, pad := some 3 },
+                { spec := .edges 2 intEncodingU16 0 }, { spec := .skip 1234 0 0 [1, 2, 3] },
+                { spec := .edges 4 intEncodingU32 0 },
+                { spec := .faces 4 false intEncodingU8 intEncodingU8 0, flags := 0 },
+                { spec := .cells 1 true intEncodingNone intEncodingU16 1 },
+                { spec := .dirp }, { spec := .prop 0 3 }, { spec := .prop 0 1 }, { spec := .eof } ] }
+
+example : ValidLayout altLayout Example.tetFile = true := by decide
+set_option maxRecDepth 20000 in
+example : (encodeWith altLayout Example.tetFile).length = 480 := by decide
+set_option maxRecDepth 20000 in
+example : decode Example.polyCfg (encodeWith altLayout Example.tetFile) = .ok Example.tetFile :=
+  permitted_roundtrip _ _ _ Example.tetFile_wf ⟨altLayout, by decide, rfl⟩ ⟨rfl, rfl⟩ (by decide) (by decide) (by decide)
 
 /-! test on concrete data (labelled as a test): the file of the empty mesh is header + EOF chunk -/
 example : (encode ⟨topoTypePolyhedral, [], [], [], [], []⟩).length = sizeFileHeader + sizeChunkHeader := by decide
